@@ -86,3 +86,18 @@ Definition reflective_ok (k : opkind) (form_refused : bool) (ex : option nat * o
 (* the consumer the entry point picked for the request (route.Consumer), when it did not refuse: the gate's *)
 Definition picked_ok (ex : option nat * option bytes) (picked : option bytes) : bool :=
   match fst ex with Some _ => true | None => opt_eqb bytes_eqb picked (snd ex) end.
+
+(* ---- the Accept header has no say at the gate: when the response format cannot be negotiated (acc_ok = false) a
+   request the gate refuses is still answered with the gate's refusal (400 / 415 / 500), by every entry point; only
+   a request the gate lets through may be answered 406 Not Acceptable instead of going on (nothing decoded, nothing
+   run). old = the verdict of the clause that holds for a request whose Accept header can be satisfied ---- *)
+Definition refused_406 (status : option nat) (cons : option bytes) (ran : bool) : bool :=
+  opt_eqb Nat.eqb status (Some 406) && is_none cons && negb ran.
+
+Definition gate_before_format (acc_ok : bool) (ex : option nat * option bytes) (old : bool)
+  (status : option nat) (cons : option bytes) (ran : bool) : bool :=
+  if acc_ok then old
+  else match fst ex with
+       | Some _ => old
+       | None => old || refused_406 status cons ran
+       end.
